@@ -29,6 +29,13 @@ def run(ctx):
         for _ in range(3):          # prepared several times: Go's map order changes between preparations
             wfs.append(w)
             kinds.append('valid-overlapping-references')
+    for name, w in pc.invalid_next_to_any_field_shapes():
+        for _ in range(12 if ctx.quick else 40):     # the order the engine looks at a stage's fields in changes between preparations
+            wfs.append(w)
+            kinds.append('invalid-next-to-an-any-typed-field:' + name)
+    for w in pc.list_reference_shapes():
+        wfs.append(w)
+        kinds.append('valid-list-of-literals-and-references')
     for w in pc.any_typed_consumer_shapes():
         wfs.append(w)
         kinds.append('valid-any-typed-consumer-of-an-engine-output')
